@@ -194,6 +194,8 @@ fn sqrt(x: Decimal) -> EvalResult {
     let mut last = result.checked_add(Decimal::new(1, 0)).ok_or("Decimal overflow")?;
     let mut before_last = last;
     for _ in 0..1000 {
+        #[cfg(feature = "verif_hooks")]
+        crate::verif_hooks::tick_loop();
         if last == result || before_last == result {
             break;
         }
